@@ -270,6 +270,33 @@ def gapRun : Bool → PGap → Option Bool
 /-- the `i`-th gap of a list; a single blank if the list is shorter -/
 def gapAt (gs : List PGap) (i : Nat) : PGap := gs.getD i [.blank false]
 
+/-! ### the WKS bit map (RFC 1035 §3.4.2)
+
+"The <BIT MAP> field … has one bit per port of the specified protocol.  The first bit
+corresponds to port 0, the second to port 1, etc."  Bits are numbered from the most significant
+one (§2.3.2: "the bit labeled 0 is the most significant bit"), so port `8 i + j` is the bit of
+value `2 ^ (7 - j)` of octet `i` (what BIND, NSD, ldns and dnspython write and read). -/
+
+/-- the octet whose bit `j`, counted from the most significant, is `c j` -/
+def octetOfBits (c : Nat → Bool) : UInt8 :=
+  UInt8.ofNat (((List.range 8).map fun j => if c j then 2 ^ (7 - j) else 0).sum)
+
+/-- octet `i` of the bit map of a port list -/
+def wksOctet (ports : List Nat) (i : Nat) : UInt8 := octetOfBits fun j => decide (8 * i + j ∈ ports)
+
+/-- the bit map: as many octets as the highest port needs, none without ports -/
+def wksBitmap (ports : List Nat) : List UInt8 :=
+  match ports.max? with
+  | none => []
+  | some hi => (List.range (hi / 8 + 1)).map (wksOctet ports)
+
+/-- WKS RDATA: address, protocol, bit map -/
+def wksWire (addr : List UInt8) (proto : Nat) (ports : List Nat) : List UInt8 :=
+  addr ++ UInt8.ofNat proto :: wksBitmap ports
+
+/-- an octet with its eight bits in the opposite order -/
+def revBits (b : UInt8) : UInt8 := octetOfBits fun j => b.toNat.testBit j
+
 /-! ### RDATA as written -/
 
 inductive PRdata where
